@@ -689,3 +689,55 @@ func C13LargeEventWhileSubscribing() {
 	sym.Assert(replies == 1, "large-event/answer-count")
 	sym.Reach("large-event-done")
 }
+
+// C13EmitWhileRegistering: one subscriber is registered; a second one registers (on its own connection)
+// while an emission of the same signal is in progress. The first subscriber gets that event exactly once,
+// the newcomer at most once — and once both calls have returned, the NEXT emission reaches both exactly
+// once (an acknowledged registration is in the subscriber table, whatever ran concurrently with it).
+func C13EmitWhileRegistering() {
+	h := newSignalHandler()
+	h.Activate(Activation{ServiceID: 9, ObjectID: 1})
+	streams := []*zzStream{newZZStream(), newZZStream()}
+	chans := []Channel{NewChannel(net.NewEndPoint(streams[0]), DefaultCap()), NewChannel(net.NewEndPoint(streams[1]), DefaultCap())}
+	first := zzFrame(net.Call, 9, 1, 0, 10, zzRegisterPayload(1, 0x60, 70))
+	sym.Assert(h.RegisterEvent(&first, chans[0]) == nil, "register-ok")
+	// an earlier emission (whatever the implementation remembers about the subscribers of a signal is warm)
+	if sym.Bool("an-emission-before") {
+		h.UpdateSignal(0x60, []byte{0xEE})
+	}
+	marks := []int{len(streams[0].sentMessages()), len(streams[1].sentMessages())}
+	d1 := sym.Bytes("emit-data-1", 1)
+	done := make(chan bool, 2)
+	var regErr error
+	go func() { h.UpdateSignal(0x60, d1); done <- true }()
+	go func() {
+		msg := zzFrame(net.Call, 9, 1, 0, 11, zzRegisterPayload(1, 0x60, 71))
+		regErr = h.RegisterEvent(&msg, chans[1])
+		done <- true
+	}()
+	<-done
+	<-done
+	sym.Assert(regErr == nil, "concurrent-register-ok")
+	events := func(c int, from int) [][]byte {
+		var out [][]byte
+		for _, f := range streams[c].sentMessages()[from:] {
+			if f.Header.Type == net.Event {
+				out = append(out, f.Payload)
+			}
+		}
+		return out
+	}
+	e0, e1 := events(0, marks[0]), events(1, marks[1])
+	sym.Assert(len(e0) == 1, "first-subscriber-gets-the-concurrent-event-once")
+	sym.Assert(len(e1) <= 1, "newcomer-gets-the-concurrent-event-at-most-once")
+	marks = []int{len(streams[0].sentMessages()), len(streams[1].sentMessages())}
+	d2 := sym.Bytes("emit-data-2", 1)
+	h.UpdateSignal(0x60, d2)
+	e0, e1 = events(0, marks[0]), events(1, marks[1])
+	sym.Assert(len(e0) == 1, "first-subscriber-gets-the-next-event-once")
+	sym.Assert(len(e1) == 1, "newcomer-gets-the-next-event-once")
+	if len(e1) == 1 {
+		sym.Assert(sym.EqBytes(e1[0], d2), "newcomer-event-payload")
+	}
+	sym.Reach("emit-while-registering-done")
+}
